@@ -53,6 +53,8 @@ def _float_like_dtype(dtype):
 def _is_complex_dtype(dtype):
     if dtype is None or dtype is object:
         return False
+    if isinstance(dtype, _np.dtype) and dtype.metadata and dtype.metadata.get("symx") == "c":
+        return True     # object dtype tagged by SymArray.dtype in logical-dtype mode (array.py)
     try:
         return _np.dtype(dtype).kind == "c"
     except TypeError:
@@ -301,6 +303,7 @@ def result_type(*args):
             cplx = cplx or iscomplexobj(a)
         elif a is object or (isinstance(a, _np.dtype) and a == object):
             symbolic = True
+            cplx = cplx or _is_complex_dtype(a)     # logical-dtype tag, if any
         else:
             rest.append(a)
     if not symbolic:
@@ -804,7 +807,37 @@ def _norm(x, ord=None, axis=None, keepdims=False):
     s = _np.frompyfunc(sq, 1, 1)(a)
     tot = s.sum(axis=axis)
     r = sqrt(tot)
+    if axis is None and isinstance(r, R) and r.q is None and a.size:
+        return _NormR(r, list(a.flat))
     return r
+
+
+class _NormR(R):
+    """Euclidean norm that remembers its entries: comparisons with the constant 0 are stated on the
+    entries (|x| == 0  <=>  every entry is 0) instead of on SQRT(sum of squares), which keeps the
+    zero-vector tests of the code under test linear.  Any arithmetic gives a plain R."""
+    __slots__ = ("elems",)
+
+    def __init__(self, r, elems):
+        R.__init__(self, q=r.q, n=r._n, d=r.d)
+        self.elems = elems
+
+    def _rel(self, o, op):
+        o2 = R.of(o)
+        if o2 is not None and o2.q is not None and o2.q == 0 and op in ("eq", "ne", "le", "gt"):
+            ts = []
+            for e in self.elems:
+                z = (e == 0)
+                if isinstance(z, (bool, _np.bool_)):
+                    if not z:
+                        return op in ("ne", "gt")      # a concretely non-zero entry
+                    continue
+                ts.append(z.t)
+            if not ts:
+                return op in ("eq", "le")
+            allzero = z3.And(*ts) if len(ts) > 1 else ts[0]
+            return SB(allzero if op in ("eq", "le") else z3.Not(allzero))
+        return R._rel(self, o, op)
 
 
 from . import oracles as _oracles  # noqa: E402
